@@ -137,11 +137,12 @@ func (h *Heap[T]) Delete(val T) (bool, error) {
 	}
 
 	h.mu.Lock()
+	defer h.mu.Unlock()
+
 	swap(h.data, idx, len-1)
 	h.data = h.data[:len-1]
 
-	h.moveDown(len, 0)
-	h.mu.Unlock()
+	h.moveDown(len-1, 0)
 
 	return true, nil
 }
